@@ -255,8 +255,12 @@ func (e *UtlsPreSharedKeyExtension) SetOmitEmptyPsk(val bool) {
 }
 
 func (e *UtlsPreSharedKeyExtension) Read(b []byte) (int, error) {
-	if !e.OmitEmptyPsk && e.Len() == 0 {
-		return 0, ErrEmptyPsk
+	if e.Len() == 0 {
+		if !e.OmitEmptyPsk {
+			return 0, ErrEmptyPsk
+		}
+		// Len() is 0 (e.g. no session): write nothing, consistently with Len()
+		return 0, io.EOF
 	}
 	return readPskIntoBytes(b, e.Identities, e.Binders)
 }
